@@ -1105,6 +1105,56 @@ func (lw *lowerer) stmt(st ast.Stmt) (string, bool) {
 			return "", false
 		}
 		return pre + r, true
+	case *ast.SwitchStmt:
+		if x.Init != nil {
+			return "", false
+		}
+		if x.Tag != nil {
+			// switch helper(x) { … }: the tag is evaluated once, before any case
+			if !containsHelper(lw, x.Tag) {
+				return "", false
+			}
+			pre, r, ok := lw.leaf(x.Tag)
+			if !ok {
+				return "", false
+			}
+			return "{\n" + pre + "switch " + r + " " + string(lw.src[lw.off(x.Body.Pos()):lw.off(x.End())]) + "\n}", true
+		}
+		// tagless switch with a helper call in a case expression: the cases are evaluated in order until one holds, which
+		// is an if / else-if chain; it is kept inside a one-armed switch so that an unlabelled break in a case body still
+		// leaves the statement. The chain's own conditions are lowered in the next round.
+		var chain []string
+		deflt := ""
+		found := false
+		for _, cl := range x.Body.List {
+			cc := cl.(*ast.CaseClause)
+			for _, st := range cc.Body {
+				if br, isBr := st.(*ast.BranchStmt); isBr && br.Tok == token.FALLTHROUGH {
+					return "", false
+				}
+			}
+			body := ""
+			if len(cc.Body) > 0 {
+				body = string(lw.src[lw.off(cc.Body[0].Pos()):lw.off(cc.Body[len(cc.Body)-1].End())])
+			}
+			if cc.List == nil {
+				deflt = body
+				continue
+			}
+			var conds []string
+			for _, e := range cc.List {
+				if containsHelper(lw, e) {
+					found = true
+				}
+				conds = append(conds, "("+lw.text(e)+")")
+			}
+			chain = append(chain, "if "+strings.Join(conds, " || ")+" {\n"+body+"\n}")
+		}
+		if !found || len(chain) == 0 {
+			return "", false
+		}
+		lw.n++ // a rewrite that inlines nothing by itself but enables the next round
+		return "switch {\ndefault:\n" + strings.Join(chain, " else ") + " else {\n" + deflt + "\n}\n}", true
 	case *ast.RangeStmt:
 		if !containsHelper(lw, x.X) {
 			return "", false
